@@ -192,8 +192,13 @@ def check_plate(b, p, key, rng):
     if len(subs) >= 2:
         pair = rng.sample(subs, 2)
         unit = rng.choice(MOL_UNITS)
-        out = b.call(lambda: p.get_moles([W.rsubs[n] for n in pair], unit=unit))
+        lst = [W.rsubs[n] for n in pair]
+        out = b.call(lambda: p.get_moles(lst, unit=unit))
         b.stats['obs:get_moles_list'] += 1
+        if len(lst) != len(pair) or any(a is not W.rsubs[n] for a, n in zip(lst, pair)):
+            # the list is the caller's: asking a question must not edit it
+            b.V('C04', 'argument_list_mutated', key + ('get_moles',),
+                f"the list of substances passed to {p.name}.get_moles held {pair} and holds {[getattr(x, 'name', x) for x in lst]} afterwards")
         if out[0] != 'ok':
             b.V('C10', 'observer_raised', key + ('get_moles_list',), f"get_moles({pair}, {unit!r}) raised {out[0]}: {out[1]}")
         else:
@@ -207,8 +212,12 @@ def check_plate(b, p, key, rng):
                         f"{p.name}.get_moles({pair}, {unit!r})[{r},{c}] = {out[1][r, c]!r}, contents give {float(exp):.12g}")
                     break
         unit = rng.choice(VOL_UNITS)
-        out = b.call(lambda: p.get_volumes(substance=[W.rsubs[n] for n in pair], unit=unit))
+        lst = [W.rsubs[n] for n in pair]
+        out = b.call(lambda: p.get_volumes(substance=lst, unit=unit))
         b.stats['obs:get_volumes_list'] += 1
+        if len(lst) != len(pair) or any(a is not W.rsubs[n] for a, n in zip(lst, pair)):
+            b.V('C04', 'argument_list_mutated', key + ('get_volumes',),
+                f"the list of substances passed to {p.name}.get_volumes held {pair} and holds {[getattr(x, 'name', x) for x in lst]} afterwards")
         if out[0] != 'ok':
             b.V('C10', 'observer_raised', key + ('get_volumes_list',), f"get_volumes({pair}, {unit!r}) raised {out[0]}: {out[1]}")
         else:
